@@ -22,24 +22,67 @@ theorem C16_default_rec (hw : Bool) (hs : Hdr) :
     recRec defaultRecActs hw hs = ({ hdr := hs } : Rec).writeHeader 500 := by
   cases hw <;> rfl
 
+/-- The status a client sees after `http.Error(w, text, code)` on a fresh writer: `code`, unless `code` is informational
+(1xx except 101) — then `WriteHeader(code)` is not final and the `Write` of the text sends the implicit 200. -/
+def errorStatus (code : Nat) : Nat := if informational code then 200 else code
+
 /-- The bundled options (`WithStatusRecovery(status)` and the Write/Log/SLog variants) answer through
-`http.Error(w, http.StatusText(status), status)`: the configured status, `Content-Type: text/plain; charset=utf-8`,
-`X-Content-Type-Options: nosniff`, any earlier Content-Length removed, and the text plus a newline as the body. -/
+`http.Error(w, http.StatusText(status), status)`: the configured status (`errorStatus`: an informational status is not
+final, the body that follows goes out with the implicit 200), `Content-Type: text/plain; charset=utf-8`,
+`X-Content-Type-Options: nosniff`, any earlier Content-Length removed, and the text plus a newline as the body.
+For EVERY configured status, informational ones included. -/
 theorem C16_bundled_rec (code n : Nat) (hs : Hdr) :
     let h' := ((hs.del hContentLength).set hContentType (bytesOfString "text/plain; charset=utf-8")).set
                 (bytesOfString "X-Content-Type-Options") (bytesOfString "nosniff")
-    recRec (httpErrorActs code n) false hs = { hdr := h', code := some code, snap := some h', body := n + 1 } := by
-  simp [recRec, httpErrorActs, runGet, Rec.writeHeader, Rec.write]
+    recRec (httpErrorActs code n) false hs =
+      { hdr := h', code := some (errorStatus code), snap := some h', body := n + 1 } := by
+  cases hi : informational code <;>
+    simp [recRec, httpErrorActs, runGet, Rec.writeHeader, Rec.write, errorStatus, hi, informational_200]
 
 /-- … and when the panic happened below the `headResponse` wrapper of a HEAD request (the deferred closure sees the
 reassigned `w`): the same status and headers at the moment the header is written, no body bytes, and Content-Length
-set on the live header map afterwards. -/
+set on the live header map afterwards.  With an informational status nothing is sent by the time the recovery function
+returns (`wrote` stayed `false` at `WriteHeader`, `Write` only counts): no status, no snapshot — net/http then sends
+the implicit 200 with the live map, the same status as for GET (`C16_bundled_status`). -/
 theorem C16_bundled_rec_head (code n : Nat) (hs : Hdr) :
     let h' := ((hs.del hContentLength).set hContentType (bytesOfString "text/plain; charset=utf-8")).set
                 (bytesOfString "X-Content-Type-Options") (bytesOfString "nosniff")
     recRec (httpErrorActs code n) true hs =
+      { hdr := h'.set hContentLength (natToBytes (n + 1)),
+        code := if informational code then none else some code,
+        snap := if informational code then none else some h', body := 0 } := by
+  cases hi : informational code <;>
+    simp [recRec, httpErrorActs, runHead, Rec.writeHeader, hi]
+
+/-- For a final status (anything but 1xx-except-101, in particular every 4xx/5xx) these are the records with that very
+status. -/
+theorem C16_bundled_rec_final (code n : Nat) (hs : Hdr) (hf : informational code = false) :
+    let h' := ((hs.del hContentLength).set hContentType (bytesOfString "text/plain; charset=utf-8")).set
+                (bytesOfString "X-Content-Type-Options") (bytesOfString "nosniff")
+    recRec (httpErrorActs code n) false hs = { hdr := h', code := some code, snap := some h', body := n + 1 } ∧
+    recRec (httpErrorActs code n) true hs =
       { hdr := h'.set hContentLength (natToBytes (n + 1)), code := some code, snap := some h', body := 0 } := by
-  simp [recRec, httpErrorActs, runHead, Rec.writeHeader]
+  have h1 := C16_bundled_rec code n hs
+  have h2 := C16_bundled_rec_head code n hs
+  simp only [errorStatus, hf, Bool.false_eq_true, if_false] at h1 h2
+  exact ⟨h1, h2⟩
+
+/-- With or without the wrapper the client sees the same status, `errorStatus code`, and (HEAD) no body. -/
+theorem C16_bundled_status (code n : Nat) (hw : Bool) (hs : Hdr) :
+    (recRec (httpErrorActs code n) hw hs).status = errorStatus code ∧
+    (hw = true → (recRec (httpErrorActs code n) hw hs).body = 0) := by
+  cases hw
+  · rw [C16_bundled_rec]; exact ⟨rfl, fun h => nomatch h⟩
+  · rw [C16_bundled_rec_head]
+    refine ⟨?_, fun _ => rfl⟩
+    cases hi : informational code <;> simp [Rec.status, errorStatus, hi]
+
+/-- The informational case really differs (so the statements above cannot say `code := some code` for every `code`):
+`WithStatusRecovery(103)` answers 200, and under the HEAD wrapper nothing has been sent yet; 101 is final. -/
+example : (recRec (httpErrorActs 103 11) false []).code = some 200 ∧
+    (recRec (httpErrorActs 103 11) true []).code = none ∧ (recRec (httpErrorActs 103 11) true []).snap = none ∧
+    (recRec (httpErrorActs 101 19) false []).code = some 101 ∧
+    (recRec (httpErrorActs 101 19) true []).code = some 101 := by decide +kernel
 
 /-- With recovery configured nothing escapes `Router.ServeHTTP` — neither a user panic nor a
 runtime fault — and a panic with value `v` raised by the call reaches the recovery function as
